@@ -206,6 +206,20 @@ func evalC06(e *Eval) {
 					}
 				}
 			}
+			// the keys read by fromJson and written by toJson are the keys Go uses, in field order
+			if local[dname] == 1 {
+				var wantKeys []string
+				for _, k := range keys {
+					if !ign[k] {
+						wantKeys = append(wantKeys, k)
+					}
+				}
+				if from, to, ok := dartStructKeys(out[where], dname); ok {
+					if strings.Join(from, "|") != strings.Join(wantKeys, "|") || strings.Join(to, "|") != strings.Join(wantKeys, "|") {
+						e.FailX("json-keys", "Dart JSON keys differ", fmt.Sprintf("%s: fromJson reads [%s], toJson writes [%s], Go uses [%s]", tn, strings.Join(from, ", "), strings.Join(to, ", "), strings.Join(wantKeys, ", ")), strings.Join(wantKeys, ", "), strings.Join(from, ", "))
+					}
+				}
+			}
 			// implements
 			var wantImpl []string
 			for u := range analysedUnions {
